@@ -4,7 +4,7 @@ import vf
 
 META = dict(
     engine='Varint.tla',
-    technique='TLA+ spec Varint.tla: decoder as octet-level transducer explored exhaustively by TLC, encoder laws checked on boundary values; every octet string up to a length bound (a path of the TLC graph) is decoded by the real buffer and source decoders on an exact-size heap block under ASan; encoder cases and full 32-bit sweeps; recorded random calls validated by TLC (VarintTrace.tla)',
+    technique='TLA+ spec Varint.tla: decoder as octet-level transducer explored exhaustively by TLC, encoder laws checked on boundary values; every octet string up to a length bound (a path of the TLC graph) is decoded by the real buffer and source decoders on an exact-size heap block under ASan; encoder cases and full 32-bit sweeps; recorded random calls validated by TLC (VarintTrace.tla); the varint calls of the repository\'s own test programs, recorded by link-time interposition, validated by TLC (VarintTrace.tla)',
     level='TLC explores the complete state graph of the decoder transducer over the octet classes (every prefix of every input up to 11 octets for both widths) and checks its termination invariants and the encoder round-trip/minimality laws; each path of that graph is an input string whose prescribed verdict/value/consumed count (for both decoders) is compared with the real code, with the block ending exactly at the end of the string so that every cut-off is an ASan-visible over-read; encoders are compared octet-for-octet on the boundary family and structurally on value sweeps; random 64-bit values and octet strings recorded from the real code are validated by TLC.',
     note='Trusted: TLC, harness/varint.c (7-bit group projection, structural predicate used in sweeps), ASan. Inputs whose bits exceed the type width may be truncated or rejected (both decoders alike) - the statement leaves that open.',
 )
@@ -111,6 +111,9 @@ def run(tier):
 
     vf.trace_flow(v, 'VarintTrace.tla', 'VarintTrace.cfg', 'varint', e2(), 'vitrace', flavours=6)
     v.cov['samples'][0]['events'] = ['dec 64 3 255 128 1 | 3 3 127 0 1 0 0 0 0 0 0 0 3 3 127 0 1 0 0 0 0 0 0 0']
+    # the varint calls of the repository's own test programs (buffer decoders, encoders, length queries), recorded by link-time
+    # interposition and validated by TLC (VarintTrace.tla: sdecb / senc / slen)
+    vf.suite_flow(v, ('vi',))
     v.cov['rule'] = ('E1: every octet string of length <= L over the octet classes plus continuation-only tails up to 12 octets, for both widths, '
                      'each in an exact-size heap block (so each proper prefix of an encoding is a cut-off at the block end); prescribed result from the '
                      'final state of the TLC-explored transducer. Encoder boundary family from TLC compared octet-exact; 32-bit sweep (all values in thorough) '
